@@ -190,7 +190,7 @@ def worker(args):
     acn = ["absent", "empty", "shown", "decoy", "unrelated", "decoy+shown", "shown+decoy", "many", "many+shown"]
     rep.extra["mandatory"] = [f"cell:DF{df}:df={d}:ac={a}" for df in DFS for d in dfn for a in acn] + \
         ["cell:undecodable:bad-parity", "cell:undecodable:not-decoded", "cell:undecodable:truncated", "path:cli", "path:toml",
-         "system:stdout-records", "system:file==stdout"]
+         "system:stdout-records", "system:file==stdout", "system:redis==stdout", "system:history-records"]
     cmds = build(rng, per_cell)
     for i in range(0, len(cmds), 20000):
         run_cmds(rep, binary, cmds[i:i + 20000])
@@ -201,7 +201,7 @@ def worker(args):
     work = os.path.join(os.path.dirname(os.path.dirname(os.path.dirname(binary))), "tmp", f"sys11_{shard}")
     for _ in range(1 if tier == "quick" else 6):
         sysjet.c11_scenario(rep, binary, work, rng, rand_frame)
-    rep.assumptions.append("system level: jet1090 --df-filter/--aircraft-filter -o FILE -v over a loopback Beast feed; every record on stdout must "
+    rep.assumptions.append("system level: jet1090 --df-filter/--aircraft-filter -o FILE -v --redis-url (a stand-in Redis server) and GET /track over a loopback Beast feed; every record on stdout must "
                            "satisfy the predicate on its own displayed fields and the file must hold the same records; a decodable frame passing the filters that "
                            "is absent although frames sent after it on the same feed came out is a wrong drop (arrival and window closing are FIFO on one "
                            "feed), other absences are not judged")
